@@ -224,6 +224,43 @@ def check_property(prop: str, tier: str, seed: int) -> int:
             samples.append({"unit": u.uid, "source": "%s:%d-%d" % (u.file, u.line_start, u.line_end),
                             "contract_head": clause[:4]})
 
+    # ------------------------------------------------------------------ frame scans (call-site frame obligations)
+    # A frame scan states: the only places in FILE where one of the token sequences occurs are inside units that are
+    # under contract for this property.  It is a syntactic obligation over the whole file (all of it is read, not a sample).
+    for fs in cfg.get("frame_scans", []):
+        fpath = os.path.join(REPO, fs["file"])
+        try:
+            src_txt = open(fpath, encoding="utf-8").read()
+        except OSError as e:
+            undecided.append("frame scan: cannot read %s: %s" % (fs["file"], e))
+            continue
+        from . import rusttok as _rt
+        toks = [t for t in _rt.tokenize(src_txt)]
+        # stop at the test module: test code is not part of the property
+        cut = src_txt.find("#[cfg(test)]")
+        spans = [(u["lines"][0], u["lines"][1]) for u in units_ev if u["file"] == fs["file"] and u["unit"] in fs["allowed_units"]]
+        obligations += 1
+        bad = []
+        for pat in fs["patterns"]:
+            ptoks = [t.text for t in _rt.tokenize(pat)]
+            for i in range(len(toks) - len(ptoks) + 1):
+                if [t.text for t in toks[i:i + len(ptoks)]] == ptoks:
+                    off = toks[i].start
+                    if cut >= 0 and off > cut:
+                        continue
+                    line = src_txt.count("\n", 0, off) + 1
+                    if not any(a <= line <= b for a, b in spans):
+                        bad.append((pat, line))
+        if bad:
+            for pat, line in bad:
+                violations.append({"obligation": "%s/frame/%s" % (prop, os.path.basename(fs["file"])), "kind": "frame", "message": fs["message"],
+                                   "clause_or_statement": "`%s` at %s:%d is outside %s" % (pat, fs["file"], line, ", ".join(fs["allowed_units"])),
+                                   "related": [], "unit": None, "function": None, "source": {"file": fs["file"], "line": line}, "backend": "frame-scan",
+                                   "verifier_output": "token sequence `%s` found at %s:%d" % (pat, fs["file"], line), "counterexample": None, "location_text": src_txt.split("\n")[line - 1].strip()})
+        else:
+            discharged += 1
+            backend_rows.append({"obligation_group": "frame scan %s" % fs["file"], "backend": "token scan", "ms": 0, "discharged": True})
+
     # ------------------------------------------------------------------ Kani groups
     kgroups = list(cfg.get("kani", []))
     if tier == "thorough":
